@@ -38,7 +38,7 @@ func (d *loggerAwarePostProcessors) PostProcessAfterInstantiation(component any,
 func (d *loggerAwarePostProcessors) PostProcessProperties(properties []*component_definition.Property, component any, componentName string) ([]*component_definition.Property, error) {
 	for _, property := range properties {
 		if property.Tag == definition.LoggerTag && reflectx.IsTypeImplement(property.Type, new(syslog.Logger)) {
-			var pref = property.TagStr
+			var pref = property.TagVal
 			if pref == "" {
 				if property.Args().Has("embed") {
 					pref = property.Holder.String()
